@@ -645,7 +645,7 @@ class Hugr(Mapping[Node, NodeData], Generic[OpVarCov]):
 
     def _to_serial(self) -> SerialHugr:
         """Serialize the HUGR."""
-        node_it = (node for node in self._nodes if node is not None)
+        live_nodes = [node for node in self._nodes if node is not None]
 
         def _serialize_link(
             link: tuple[_SO, _SI],
@@ -656,9 +656,11 @@ class Hugr(Mapping[Node, NodeData], Generic[OpVarCov]):
 
         return SerialHugr(
             # non contiguous indices will be erased
-            nodes=[node._to_serial(Node(idx, {})) for idx, node in enumerate(node_it)],
+            nodes=[
+                node._to_serial(Node(idx, {})) for idx, node in enumerate(live_nodes)
+            ],
             edges=[_serialize_link(link) for link in self._links.items()],
-            metadata=[node.metadata if node.metadata else None for node in node_it],
+            metadata=[node.metadata if node.metadata else None for node in live_nodes],
         )
 
     def _constrain_offset(self, p: P) -> PortOffset:
